@@ -547,11 +547,12 @@ class UfhController(Parent, DeviceHeat):  # UFC (02):
         if self._setpoints is None:
             return None
 
+        payload = self._setpoints.payload  # an array, or (rarely) a single circuit
         return {
             c[SZ_UFH_IDX]: {
                 k: v for k, v in c.items() if k in ("temp_low", "temp_high")
             }
-            for c in self._setpoints.payload
+            for c in (payload if isinstance(payload, list) else [payload])
         }
 
     @property  # id, type
